@@ -1,10 +1,9 @@
-\* thorough tier: collections of <= 4
-\* the algorithm of the code ("%04d") on identifiers already printed as %04d:
-\* 4 heads x 7 numbers, collections of <= 3 identifiers, all orders, duplicates
+\* thorough tier: collections of <= 4 identifiers over 3 heads x 6 numbers
+\* the algorithm of the code ("%04d") on identifiers already printed as %04d, all orders, duplicates
 SPECIFICATION Spec
 CONSTANTS
-  Heads <- HeadsCanon
-  Numbers <- NumsCanon
+  Heads <- HeadsCanon4
+  Numbers <- NumsCanon4
   Widths = {4}
   Extra = {}
   MaxIds = 4
